@@ -14,9 +14,12 @@ def _r(rng, lo, hi, nd=3):
     return round(rng.uniform(lo, hi), nd)
 
 
-def gen_spec(rng, size=1, inp_only=False, exotic=0.0):
+def gen_spec(rng, size=1, inp_only=False, exotic=0.0, share_curves=False):
     """inp_only: restrict to what the INP format has a place for (C12).  exotic: probability of control forms that
-    neither the [CONTROLS] syntax nor the dict 'simple' form can express (reported under their own keys)."""
+    neither the [CONTROLS] syntax nor the dict 'simple' form can express (reported under their own keys).
+    share_curves: let 2-3 elements refer to ONE curve of every type (volume: tanks, head / efficiency: pumps, headloss:
+    GPVs); decided by a generator of its own seeded from the spec, so that the main random stream (and every spec
+    generated without the flag) is unchanged."""
     sp = {}
     npat = rng.randint(1, 3)
     pats = []
@@ -312,7 +315,43 @@ def gen_spec(rng, size=1, inp_only=False, exotic=0.0):
     if not inp_only and rng.random() < 0.3:
         o["time"]["pattern_interpolation"] = True
     sp["options"] = o
+    if share_curves:
+        _share_curves(sp)
     return sp
+
+
+def _share_curves(sp):
+    import random
+    r2 = random.Random(json.dumps(sp, sort_keys=True))
+    nodes = [j["name"] for j in sp["junctions"]]
+    # volume curve: 1-2 further tanks on the curve of a tank that has one (levels inside the curve's range)
+    for t in [t for t in sp["tanks"] if "volcurve" in t][:1]:
+        if r2.random() < 0.7:
+            for k in range(r2.randint(1, 2)):
+                t2 = dict(t, name="%sS%d" % (t["name"], k), elev=round(t["elev"] + 1.5 * (k + 1), 2), coords=[round(t["coords"][0] + k + 1, 2), t["coords"][1]])
+                t2.pop("tag", None)
+                sp["tanks"].append(t2)
+                sp["pipes"].append({"name": "PS%s" % t2["name"], "a": r2.choice(nodes), "b": t2["name"], "len": 50.0, "diam": 0.2, "rough": 100.0, "mloss": 0.0,
+                                    "status": "OPEN", "cv": False, "vertices": []})
+    # efficiency and head curves: further pumps on the curves of an existing pump
+    for key, typ in (("eff", None), ("param", "HEAD")):
+        src = [p for p in sp["pumps"] if key in p and (typ is None or p["type"] == typ)][:1]
+        for p in src:
+            if r2.random() < 0.7:
+                for k in range(r2.randint(1, 2)):
+                    a = r2.choice(nodes)
+                    p2 = {"name": "%sS%s%d" % (p["name"], key[0], k), "a": a, "b": r2.choice([n for n in nodes if n != a]), "type": p["type"], "param": p["param"],
+                          "speed": 1.0, "pat": None, "status": "OPEN", "vertices": []}
+                    if "eff" in p and (key == "eff" or r2.random() < 0.5):
+                        p2["eff"] = p["eff"]
+                    sp["pumps"].append(p2)
+    # headloss curve: further GPVs on the curve of an existing GPV
+    for v in [v for v in sp["valves"] if v["type"] == "GPV"][:1]:
+        if r2.random() < 0.8:
+            for k in range(r2.randint(1, 2)):
+                a = r2.choice(nodes)
+                sp["valves"].append({"name": "%sS%d" % (v["name"], k), "a": a, "b": r2.choice([n for n in nodes if n != a]), "diam": v["diam"], "type": "GPV",
+                                     "mloss": 0.0, "setting": v["setting"], "status": "ACTIVE", "vertices": []})
 
 
 REL = {"=": "=", ">": ">", "<": "<", ">=": ">=", "<=": "<=", "<>": "<>"}
@@ -536,6 +575,10 @@ def features(sp):
         f.add("source:" + s["type"])
     for c in sp["curves"]:
         f.add("curve:%s:%dpt" % (c["type"], len(c["pts"])))
+        users = ([t for t in sp["tanks"] if t.get("volcurve") == c["name"]] + [p for p in sp["pumps"] if p.get("eff") == c["name"]]
+                 + [p for p in sp["pumps"] if p["type"] == "HEAD" and p.get("param") == c["name"]] + [v for v in sp["valves"] if v["type"] == "GPV" and v.get("setting") == c["name"]])
+        if len(users) > 1:
+            f.add("curve:%s:shared" % c["type"])
 
     def walk(c):
         if c[0] in ("and", "or"):
